@@ -61,8 +61,20 @@ class Binding(object):
             return None
         return int(seed) if form == 'int' else np.random.RandomState(int(seed))
 
+    newform = 'ctor'            # 'ctor' | 'class' | 'name': how New builds the object (get_instance forms)
+
+    def _make(self, kw):
+        from copulas.utils import get_instance, get_qualified_name
+        if self.newform == 'class':
+            return get_instance(self.cls(), **kw)
+        if self.newform == 'name':
+            return get_instance(get_qualified_name(self.cls()), **kw)
+        return self.cls()(**kw)
+
     def new(self, cfg, seed, form='int'):
-        return self.cls()(random_state=self.seed_arg(seed, form), **self.kwargs(cfg))
+        kw = dict(self.kwargs(cfg))
+        kw['random_state'] = self.seed_arg(seed, form)
+        return self._make(kw)
 
     def set_seed(self, m, seed, form='int'):
         m.set_random_state(self.seed_arg(seed, form))
@@ -244,7 +256,7 @@ def bi_data(d):
         elif d == 'B':
             rs = np.random.RandomState(22)
             z = rs.normal(size=(25, 2))
-            z[:, 1] = 0.4 * z[:, 0] + 0.9 * z[:, 1]
+            z[:, 1] = 0.7 * z[:, 0] + 0.7 * z[:, 1]
         else:
             raise KeyError(d)
         n = len(z)
@@ -426,15 +438,21 @@ class VineBinding(Binding):
         from copulas.multivariate import Multivariate
         return Multivariate.from_dict
 
+    poison_cycle = (0.0,)
+
     def new(self, cfg, seed, form='int'):
-        return self.cls()(self.vtype, random_state=self.seed_arg(seed, form))
+        return self._make({'vine_type': self.vtype, 'random_state': self.seed_arg(seed, form)})
 
     def data(self, d):
         return mv_data(d, self.ncol)
 
+    _npoison = 0
+
     def _poison(self):
         k = self.ncol
-        poison([(j, j) for j in range(1, k + 1)] + [(1, j) for j in range(1, k + 1)], 0.0)
+        v = self.poison_cycle[self._npoison % len(self.poison_cycle)]
+        self._npoison += 1
+        poison([(j, j) for j in range(1, k + 1)] + [(1, j) for j in range(1, k + 1)], v)
 
     def fit(self, m, d):
         self._poison()
